@@ -395,7 +395,7 @@ def main():
     if args.replay:
         return do_replay(pid, SPEC, hdir, args.replay, kf_defines)
     tmp = tempfile.mkdtemp(prefix='verif-%s-' % pid)
-    evidence = {'property_id': pid, 'tier': args.tier, 'seed': seed, 'level': 'model_checking'}
+    evidence = {'property_id': pid, 'tier': args.tier, 'seed': seed, 'level': SPEC.get('level', 'model_checking')}
     engine_errors, violations, notes, kf_lines = [], [], [], []
     ob_results = []
     builds = {}
